@@ -475,9 +475,9 @@ theorem cstep_stepCreated (p : Pool) (t : Nat) (tk : PTask) : CStep p (p.stepCre
     · exact h0.trans (cstep_afterWorker _ _ _)
     · exact h0.trans ((cstep_modTask _ _ _).trans (cstep_suspendTask _ _ _))
 
-theorem cstep_workerNext (p : Pool) (t : Nat) : CStep p (p.workerNext t) := by
+theorem cstep_workerNext (p : Pool) (t : Nat) (tk : PTask) : CStep p (p.workerNext t tk) := by
   unfold workerNext
-  exact ((cstep_logEv p _).trans (cstep_modTask _ _ _)).trans (cstep_suspendTask _ _ _)
+  exact (((cstep_logEv p _).trans (cstep_modTask _ _ _)).trans (cstep_runHooks _ _ _)).trans (cstep_suspendTask _ _ _)
 
 theorem cstep_workerCancelled (p : Pool) (t : Nat) (tk : PTask) : CStep p (p.workerCancelled t tk) := by
   unfold workerCancelled
@@ -496,7 +496,7 @@ theorem cstep_stepInWorker (p : Pool) (t : Nat) (tk : PTask) : CStep p (p.stepIn
   · exact (cstep_modTask p _ _).trans (cstep_workerCancelled _ t tk)
   · split
     · split
-      · exact cstep_workerNext p t
+      · exact cstep_workerNext p t tk
       · exact cstep_afterWorker p _ _
     · exact cstep_afterWorker p _ _
     · exact CStep.refl p
